@@ -16,6 +16,9 @@ POOL = {
     "quotes": G % "quotes" + 'QUO = "\'";\nDQ = "\\"";\nBSL = "\\\\";\nstart = {QUO | DQ | BSL | "x"};\n',
     # inline literals: the terminal is NAMED by the text between the quotes, escapes included
     "inlineesc": G % "inlineesc" + 'start = {"\\"" | "\\\\" | "\'" | "a\\"b" | "`" | "\\\\n" | "%d" | "{{" };\n',
+    # U+FFFD is a character like any other; surrogates and out-of-range values have no character literal
+    "replacement": G % "replacement" + 'RC = /[\\xFFFC-\\xFFFD]+/;\nTXT = /"[a-z\\xFFFD]*"/;\nstart = {RC | TXT};\n',
+    "surrogates": G % "surrogates" + 'SG = /[\\xD7FE-\\xD802]+/;\nNG = /a\\xFFFFFFFF/;\nID = /[a-z]+/;\nstart = {SG | NG | ID};\n',
     "nonascii": G % "nonascii" + 'EE = /\\x00E9+/;\nEUR = /\\x20AC/;\nID = /[a-z]+/;\nstart = {EE | EUR | ID};\n',
     "control": G % "control" + 'CTL = /[\\x01-\\x08]/;\nBEL = /\\x07\\x07/;\nID = /[a-z]+/;\nstart = {CTL | BEL | ID};\n',
     "nostate": G % "nostate" + 'IFP = /i[f]/;\nID = /[a-z]+x/;\nstart = {"if" | IFP | ID};\n',
